@@ -186,15 +186,17 @@ class C10(Property):
                 for fl in b["flavours"]:
                     for vf in b["vf"]:
                         for amap in (False, True):
+                            if amap and b["tier"] == "quick" and kerns.index(kern) % 3:
+                                continue  # quick: the axis map on every third kerning pattern
                             anchors = [0, 1, 2, 3][:nfull] if (kern[0][0] + kern[-1][1]) % 2 else [0] * nfull
                             out.append([{"topo": topo, "kern": [list(k) for k in kern], "anchors": anchors,
                                          "flavour": fl, "vf": vf, "axis_map": amap}])
-                            if nfull == 2 and amap is False:
+                            if nfull == 2 and amap is False and (b["tier"] != "quick" or kerns.index(kern) % 3 == 0):
                                 out.append([{"topo": topo, "kern": [list(k) for k in kern], "anchors": anchors,
                                              "flavour": fl, "vf": vf, "axis_map": amap, "w2": True}])
                                 out.append([{"topo": topo, "kern": [list(k) for k in kern], "anchors": anchors,
                                              "flavour": fl, "vf": vf, "axis_map": amap, "w2": True, "half": [1, 0]}])
-                            if nfull == 2 and amap is False:
+                            if nfull == 2 and amap is False and (b["tier"] != "quick" or all(k[1] == 0 for k in kern)):
                                 # the half-class exception present in the first, the second or both masters
                                 for half in ([1, 0], [0, 1], [1, 1]):
                                     out.append([{"topo": topo, "kern": [list(k) for k in kern], "anchors": anchors,
